@@ -249,3 +249,41 @@ func HarnessC03ActionInputs() {
 	verifReach("site")
 	verifCheckPlaceholder(errs, bad, false)
 }
+
+// HarnessC03Testdata: the sweep of HarnessC03Skeleton over the repository's own
+// example workflows (every YAML file under testdata/ok, testdata/err and
+// testdata/examples of the current tree that lints clean with the in-process
+// rules; compiled in at run time), chunk c of n: every scalar value, replaced in
+// turn by a malformed placeholder, is diagnosed at that scalar.
+func HarnessC03Testdata(c, n int) {
+	var mine []int
+	for k := c; k < len(verifCorpusFiles); k += n {
+		mine = append(mine, k)
+	}
+	if len(mine) == 0 {
+		verifReach("site")
+		return
+	}
+	src := verifCorpusFiles[mine[verifChoose("file", len(mine))]]
+	base := verifLintNode(verifParseYAML(src), verifRules())
+	if len(base) > 0 {
+		verifReach("not-clean")
+		return
+	}
+	doc, sites := verifSkeletonSitesOf(src)
+	if len(sites.scalars) == 0 {
+		verifReach("site")
+		return
+	}
+	site := sites.scalars[verifChoose("scalar", len(sites.scalars))]
+	if site.node.Tag == "!!null" {
+		// `workflow_dispatch:` and the like: an absent section, not a scalar value of the syntax
+		verifReach("null-site")
+		return
+	}
+	site.node.Tag, site.node.Style = "!!str", 0
+	site.node.Value = verifBadExpr
+	errs := verifLintNode(doc, verifRules())
+	verifReach("site")
+	verifCheckPlaceholder(errs, site.node, verifExempt(site.ctx, site.key))
+}
